@@ -84,7 +84,16 @@ func b2i(b bool) int {
 	return 0
 }
 
+// per node: did the in-flight Ready already put a message on the network?
+var sentInReady = map[uint64]bool{}
+
 func emit(w *bufio.Writer, rec *raftdrv.Record) {
+	if rec.Ev.K == "step" || rec.Ev.K == "init" || rec.Ev.K == "crash" || rec.Ev.K == "restart" {
+		sentInReady[rec.Ev.N] = false
+	}
+	for _, m := range rec.Add {
+		sentInReady[m.Msg.From] = true
+	}
 	sub := rec.Sub
 	if sub == "" {
 		sub = "-"
@@ -94,11 +103,21 @@ func emit(w *bufio.Writer, rec *raftdrv.Record) {
 		fmt.Fprintf(w, "P\t%s\n", strings.ReplaceAll(strings.ReplaceAll(rec.Panic, "\n", " "), "\t", " "))
 	}
 	for _, n := range rec.Nodes {
+		// sendpending: the effects of the in-flight Ready are not yet visible outside the node: its send
+		// sub-step has not run, or it ran without putting anything on the network (the Ready in which a
+		// node turns leader sends first) and the Ready is not yet persisted
 		sp := 0
+		persisting := false
 		for _, st := range n.InFlight {
 			if st == "send" {
 				sp = 1
 			}
+			if st == "psnap" || st == "pents" || st == "phs" {
+				persisting = true
+			}
+		}
+		if persisting && !sentInReady[n.ID] {
+			sp = 1
 		}
 		if n.LogErr != "" {
 			fmt.Fprintf(w, "P\tlogerr node %d: %s\n", n.ID, n.LogErr)
